@@ -244,7 +244,7 @@ class SolverRun:
             self.flushed += 1
             it = bypoint.get(id(ent["point"]))
             if "exc" in ent:
-                self.emit({"ev": "fail", "ylog": qv(ent["y"]), "exc": ent["exc"], "k": ent["k"]})
+                self.emit({"ev": "fail", "ylog": qv(ent["y"]), "exc": ent["exc"], "k": ent["k"], "xinv": self.inverse_of(ent["y"])})
             elif it is None:
                 self.emit({"ev": "local", "ylog": qv(ent["y"]), "zlog": q(ent["value"]), "k": ent["k"],
                            "yafter": qv(ent["y_after"])})
@@ -254,6 +254,17 @@ class SolverRun:
                            "zlog": q(ent["value"]), "fv": q(float(it.functionValues[0].value)),
                            "same_holder": ent["holder_out"] is ent["holder_in"] and it.functionValues[0] is ent["holder_out"],
                            "xf": repr(float(it.GetX()))})
+
+    def inverse_of(self, y):
+        """curve coordinate (left end of the subinterval) of an evaluated point, through a separate Evolvent object (public API)"""
+        try:
+            from iOpt.evolvent.evolvent import Evolvent
+            if getattr(self, "_inv", None) is None:
+                self._inv = Evolvent(self.rp.lowerBoundOfFloatVariables, self.rp.upperBoundOfFloatVariables, self.n,
+                                     int(self.params.evolventDensity))
+            return q(float(self._inv.GetInverseImage(np.array(y, dtype=np.double))))
+        except Exception:       # noqa: BLE001
+            return "none"
 
     def _after_call(self, name, extra):
         snap = snapshot_search(self.solver, self.full_snap)
